@@ -74,30 +74,36 @@ theorem prefilter_never_hides (s e : Int) (S : RangeSet) (c : Child) (hc : Child
 
 /-! ### one loop iteration -/
 
+theorem isCoding_eq (c : Child) : isCoding c = .ok c.isCoding := by
+  unfold isCoding Child.isCoding
+  cases c.kind <;> rfl
+
 theorem keepChild_eq (co cw : Bool) (s e : Int) (hs : 0 ≤ s) (hse : s < e) (c : Child) (hc : ChildWF c)
-    (hv : co = true → c.kind ≠ .var) (myBins : Option RangeSet)
+    (myBins : Option RangeSet)
     (hb : myBins = none ∨ (cw = true ∧ ∃ S, myBins = some S ∧ bins s e .bed false = .ok (.many S))) :
     keepChild co cw myBins s e c = .ok (keepSpec co cw s e c) := by
   have hval := hc.span_valid
-  have hcoding : ∀ (h : co = true), isCoding c = .ok c.coding := by
-    intro h
-    unfold isCoding
-    have := hv h
-    cases hk : c.kind <;> simp_all <;> rfl
-  unfold keepChild keepSpec
-  cases co with
-  | false =>
-    simp only [Bool.false_eq_true, if_false, bind, Except.bind, pure, Except.pure, Bool.not_false, Bool.true_or,
-      Bool.true_and]
+  -- the part after the coding filter
+  have tail : (do
+      let skipBins ←
+        match myBins with
+        | some S => if rsNonEmpty S then (do let hit ← anyBinIn S c.gcs; pure (!hit)) else pure false
+        | none => (pure false : QR Bool)
+      if skipBins then pure false
+      else if cw then pure (containsInt (s, e) (c.start, c.stop))
+      else pure (overlapInt (s, e) (c.start, c.stop))) =
+      (.ok (if cw then decide (s ≤ c.start ∧ c.stop ≤ e ∧ c.start < c.stop)
+            else decide (c.start < e ∧ s < c.stop ∧ c.start < c.stop)) : QR Bool) := by
     rcases hb with hb | ⟨hcw, S, hb, hS⟩
     · subst hb
+      simp only [bind, Except.bind, pure, Except.pure, Bool.false_eq_true, if_false]
       cases cw with
       | true => simp only [if_true]; rw [containsInt_iff _ _ _ _ hse hval]
       | false =>
         simp only [Bool.false_eq_true, if_false]; rw [overlapInt_iff _ _ _ _ (by omega) hval]
         congr 1; simp only [decide_eq_decide]; omega
     · subst hb hcw
-      simp only [if_true]
+      simp only [bind, Except.bind, pure, Except.pure, if_true]
       rw [anyBinIn_eq, containsInt_iff _ _ _ _ hse hval]
       by_cases hin : s ≤ c.start ∧ c.stop ≤ e
       · rw [prefilter_never_hides s e S c hc hs hS hin]
@@ -106,31 +112,21 @@ theorem keepChild_eq (co cw : Bool) (s e : Int) (hs : 0 ≤ s) (hse : s < e) (c 
           simp only [decide_eq_false_iff_not]; omega
         rw [this]
         cases rsNonEmpty S <;> cases (c.gcs.any fun g => S.mem (expectBin g.start g.stop 0)) <;> simp
+  unfold keepChild keepSpec
+  cases co with
+  | false =>
+    simp only [Bool.false_eq_true, if_false, bind, Except.bind, pure, Except.pure, Bool.not_false, Bool.true_or,
+      Bool.true_and] at tail ⊢
+    exact tail
   | true =>
-    simp only [if_true, bind, Except.bind, pure, Except.pure]
-    rw [hcoding rfl]
+    simp only [if_true, bind, Except.bind, pure, Except.pure] at tail ⊢
+    rw [isCoding_eq]
     simp only [Bool.not_true, Bool.false_or]
-    cases hcd : c.coding with
+    cases hcd : c.isCoding with
     | false => simp
     | true =>
       simp only [Bool.not_true, Bool.false_eq_true, if_false, Bool.true_and]
-      rcases hb with hb | ⟨hcw, S, hb, hS⟩
-      · subst hb
-        cases cw with
-        | true => simp only [if_true]; rw [containsInt_iff _ _ _ _ hse hval]
-        | false =>
-          simp only [Bool.false_eq_true, if_false]; rw [overlapInt_iff _ _ _ _ (by omega) hval]
-          congr 1; simp only [decide_eq_decide]; omega
-      · subst hb hcw
-        simp only [if_true]
-        rw [anyBinIn_eq, containsInt_iff _ _ _ _ hse hval]
-        by_cases hin : s ≤ c.start ∧ c.stop ≤ e
-        · rw [prefilter_never_hides s e S c hc hs hS hin]
-          cases rsNonEmpty S <;> simp
-        · have : decide (s ≤ c.start ∧ c.stop ≤ e ∧ c.start < c.stop) = false := by
-            simp only [decide_eq_false_iff_not]; omega
-          rw [this]
-          cases rsNonEmpty S <;> cases (c.gcs.any fun g => S.mem (expectBin g.start g.stop 0)) <;> simp
+      exact tail
 
 /-! ### the loop -/
 
@@ -180,7 +176,7 @@ theorem mem_iterChildren {src : Source} {c : Child} : c ∈ iterChildren src ↔
 /-- T1 core: for every valid non-negative range `_query_by_position` keeps exactly `specFilter` of the children
     (in iteration order) — whatever the bin pre-filter does. -/
 theorem queryKept_eq (src : Source) (s e : Int) (cw co : Bool) (hs : 0 ≤ s) (hse : s < e)
-    (hwf : ∀ c ∈ src.children, ChildWF c) (hv : co = true → ∀ c ∈ src.children, c.kind ≠ .var) :
+    (hwf : ∀ c ∈ src.children, ChildWF c) :
     queryKept src s e cw co = .ok (specFilter (iterChildren src) co cw s e) := by
   unfold queryKept specFilter
   by_cases hb : cw = true ∧ s ≠ 0 ∧ e ≠ 0
@@ -189,9 +185,9 @@ theorem queryKept_eq (src : Source) (s e : Int) (cw co : Bool) (hs : 0 ≤ s) (h
     subst hcw
     simp only [h1, h2, ne_eq, not_false_eq_true, and_self, if_true, hS1, bind, Except.bind, pure, Except.pure]
     exact filterQ_eq _ _ _ (fun c hc => keepChild_eq co true s e hs hse c (hwf c (mem_iterChildren.mp hc))
-      (fun h => hv h c (mem_iterChildren.mp hc)) (some S) (Or.inr ⟨rfl, S, rfl, hS2⟩))
+      (some S) (Or.inr ⟨rfl, S, rfl, hS2⟩))
   · simp only [hb, if_false, bind, Except.bind, pure, Except.pure]
     exact filterQ_eq _ _ _ (fun c hc => keepChild_eq co cw s e hs hse c (hwf c (mem_iterChildren.mp hc))
-      (fun h => hv h c (mem_iterChildren.mp hc)) none (Or.inl rfl))
+      none (Or.inl rfl))
 
 end BioCantor.Proofs.Query
